@@ -11,7 +11,11 @@ subprocess.run(['git', '-C', '/repo', 'worktree', 'add', '-q', '--detach', wt, '
 res = {'id': mid}
 try:
     demo = os.path.join(src, 'demo.py')
-    run = lambda: subprocess.run(['/venv/bin/python', demo], cwd=wt, capture_output=True, text=True, timeout=1800)
+    # the demonstration runs from the root of the scratch worktree (a copy there: `import tatsu` must find the worktree's package)
+    local = os.path.join(wt, f'_demo_{mid}.py')
+    shutil.copy(demo, local)
+    run = lambda: subprocess.run(['/venv/bin/python', local], cwd=wt, capture_output=True, text=True, timeout=1800,
+                                 env={**os.environ, 'PYTHONPATH': wt})
     r0 = run()
     res['demo_unchanged_exit'] = r0.returncode
     ap = subprocess.run(['git', '-C', wt, 'apply', '--3way', os.path.join(src, 'patch.diff')], capture_output=True, text=True)
@@ -36,6 +40,7 @@ try:
         res['baseline_missing'] = missing[:5]
         res['baseline_ok'] = not missing
         # refreshed diff against the current HEAD
+        os.unlink(local)
         res['diff'] = subprocess.run(['git', '-C', wt, 'diff', 'HEAD'], capture_output=True, text=True).stdout
 finally:
     subprocess.run(['git', '-C', '/repo', 'worktree', 'remove', '--force', wt], capture_output=True)
